@@ -40,6 +40,8 @@ func init() {
 
 type syWorld struct {
 	ch map[int]value.Channel
+	wv map[int]value.WriteChannel
+	rv map[int]value.ReadChannel
 	mu map[int]*value.Mutex
 	rw map[int]*value.RWMutex
 	wg map[int]*value.WaitGroup
@@ -115,7 +117,7 @@ func execSync(f []string) string {
 	if len(f) != 2 || f[0] != "run" {
 		return "bad-op"
 	}
-	w := &syWorld{ch: map[int]value.Channel{}, mu: map[int]*value.Mutex{}, rw: map[int]*value.RWMutex{},
+	w := &syWorld{ch: map[int]value.Channel{}, wv: map[int]value.WriteChannel{}, rv: map[int]value.ReadChannel{}, mu: map[int]*value.Mutex{}, rw: map[int]*value.RWMutex{},
 		wg: map[int]*value.WaitGroup{}, on: map[int]*value.Once{}, oc: map[int]*int{}}
 	var outs []string
 	if f[1] != "" {
@@ -157,6 +159,49 @@ func (w *syWorld) exec(op string, n []int) (string, bool) {
 		}
 		w.ch[n[0]] = value.MakeNativeChannel[value.SmallInt](n[1])
 		return "ok", true
+	case "vp", "vc", "vl", "vg":
+		// the same operations through the write-only / read-only view of the channel (created once per channel)
+		if len(n) < 1 {
+			return "", false
+		}
+		ch, ok := w.ch[n[0]]
+		if !ok {
+			return "", false
+		}
+		if op == "vg" {
+			rv, ok := w.rv[n[0]]
+			if !ok {
+				rv = ch.ToReadChannel()
+				w.rv[n[0]] = rv
+			}
+			return callTimed(func() string {
+				v, err := rv.Pop()
+				if !err.IsUndefined() {
+					return errName(err)
+				}
+				if !v.IsSmallInt() {
+					return "err:not-an-int " + v.Inspect()
+				}
+				return fmt.Sprintf("v%d", int(v.AsSmallInt()))
+			}), true
+		}
+		wv, ok := w.wv[n[0]]
+		if !ok {
+			wv = ch.ToWriteChannel()
+			w.wv[n[0]] = wv
+		}
+		switch op {
+		case "vp":
+			if !need(2) {
+				return "", false
+			}
+			v := value.SmallInt(n[1]).ToValue()
+			return callTimed(func() string { return errName(wv.Push(v)) }), true
+		case "vc":
+			return callTimed(func() string { return errName(wv.Close()) }), true
+		default:
+			return fmt.Sprintf("v%d", wv.Length()), true
+		}
 	case "cp", "cg", "cc", "cl":
 		if len(n) < 1 {
 			return "", false
